@@ -47,7 +47,7 @@ def main():
                     seen[key] = seed
                     print(seed, key, flush=True)
     print("done: %d seeds x %d properties, %d signature(s)" % (
-        count, 7, len(seen)))
+        count, len(__import__("sim.cases").cases.RERUN_PROPS), len(seen)))
     return 1 if seen else 0
 
 
